@@ -4,7 +4,7 @@
 From Coq Require Import List NArith ZArith Bool.
 From IdV Require Import Lib.Outcome Core.Timestamp Cred.StatusList Doc.Doc Cred.SdJwt Iota.StateMeta Panic.Sites
   Proofs.TimestampProofs Proofs.StatusListProofs Proofs.SdJwtProofs Proofs.SitesProofs
-  Did.DidParse Did.IotaDid Did.DidJwk Proofs.DidUrlProofs Proofs.DidCompleteProofs Proofs.DidTotalProofs Proofs.DidJwkProofs.
+  Did.DidParse Did.IotaDid Did.DidJwk Proofs.DidUrlProofs Proofs.DidCompleteProofs Proofs.DidTotalProofs Proofs.DidSplitProofs Proofs.DidJwkProofs.
 Import ListNotations.
 
 Theorem C05_timestamp_parse_never_panics : forall s, ts_parse s <> Panic.
@@ -39,9 +39,9 @@ Print Assumptions C05_core_did_parse_never_panics.
 Theorem C05_iota_did_parse_never_panics : forall s, iota_parse s <> Panic.
 Proof. exact iota_parse_total. Qed.
 Print Assumptions C05_iota_did_parse_never_panics.
-Theorem C05_did_url_parse_never_panics_outside_K_pct : forall s, K_pct s = false -> did_url_parse s <> Panic.
-Proof. intros s K. apply did_url_total_pct_free. unfold no_pct. unfold K_pct in K. rewrite K. reflexivity. Qed.
-Print Assumptions C05_did_url_parse_never_panics_outside_K_pct.
+Theorem C05_did_url_parse_never_panics : forall s, did_url_split_parse s <> Panic.
+Proof. exact did_url_split_total. Qed.
+Print Assumptions C05_did_url_parse_never_panics.
 
 (* MethodDigest::unpack (bounds-checked slicing of a packed format): never panics; pack / unpack round trip; only packed digests are accepted;
    without the length test the indexing panics *)
